@@ -99,7 +99,11 @@ def run(ctx):
             job.update(start=e.f(0), stop=e.f(16), n=rng.choice([5, 9, 17]))
         jobs.append(job)
         skel.append(dict(kind="landscape", q=Q, emb=e, title=title, wantx=(labels[0] if labels else ""), wanty=(labels[1] if labels else ""), dr=dr))
-    results, _ = run_driver_parallel("plots.py", jobs, nproc=12)
+    judge(ctx, jobs, skel)
+
+
+def judge(ctx, jobs, skel, nproc=12):
+    results, _ = run_driver_parallel("plots.py", jobs, nproc=nproc)
     cases, idx = [], []
     for i, (sk, r) in enumerate(zip(skel, results)):
         e = sk["emb"]
@@ -176,8 +180,14 @@ def run(ctx):
             ctx.ok_trace()
             ctx.sample({"job": {k: jobs[i][k] for k in jobs[i] if k not in ("dgms",)}, "verdict": "ok"}, cap=4)
         else:
-            ctx.failure({"clause": clause, "kind": c["kind"], "fn": c.get("fn"), "ax_is_current": bool(jobs[i].get("ax_is_current"))}, {"kind": "plot", "job": jobs[i], "case": {k: c[k] for k in c if k not in ("emb",)}})
+            sk = {k2: v2 for k2, v2 in skel[i].items() if k2 != "emb"}
+            sk["embname"] = skel[i]["emb"].name
+            ctx.failure({"clause": clause, "kind": c["kind"], "fn": c.get("fn"), "ax_is_current": bool(jobs[i].get("ax_is_current"))}, {"kind": "plot", "job": jobs[i], "skel": sk, "case": {k: c[k] for k in c if k not in ("emb",)}})
 
 
 def replay(ctx, rec):
-    ctx.notes.append("re-run ./check C20 with the same VERIF_SEED to reproduce")
+    c = rec["case"]
+    sk = dict(c["skel"])
+    name = sk.pop("embname")
+    sk["emb"] = next(x for x in E if x.name == name)
+    judge(ctx, [c["job"]], [sk], nproc=1)
